@@ -314,14 +314,24 @@ def register_var(GROUPS, c2g, incs, REPO, HERE, STRUCTS, Group):
         g.add(t, i)
         ALL = S + ["stats_" + x for x in OUTF]
         st = prep(loops[1]["inner"][-1], "sc_stats_compute")["inner"]
+        # the double locals of the function declared without initialiser (cnt, avg, ..): uninitialised before the loop.  They are
+        # collected from the declarations so that a new scratch variable is a changed DEFINITION (a theorem breaks), not a failed translation
+        dlocals = []
+        for d_ in body(F).get("inner", []):
+            if d_.get("kind") == "DeclStmt":
+                for v_ in d_.get("inner", []):
+                    if v_.get("kind") == "VarDecl" and c2g.is_float(c2g.tystr(v_)) and not [c for c in v_.get("inner", []) if isinstance(c, dict)]:
+                        dlocals.append(v_["name"])
+        if "cnt" not in dlocals or "avg" not in dlocals:
+            raise c2g.Unsupported("sc_stats_compute: no double locals cnt, avg")
         t, i = block(st, "var_compute_post", ALL, "sc_stats_compute/post", params=tuple(ALL + FL_OUT), want_params=ALL + FL_OUT, jumps_end=True,
-                     init={"avg": "0", "cnt": "0"})   # locals of the function, uninitialised before the loop
+                     init=dict((v_, "0") for v_ in dlocals))
         g.add(t, i)
         # the derived outputs over Q: the assignments to average / avg / variance / variance_mean in the branch with samples
         branch = one([s_ for s_ in st if s_.get("kind") == "IfStmt" and len(s_["inner"]) == 3 and sl.refs(s_["inner"][0]) == {"cnt"}],
                      "sc_stats_compute/post: if (!cnt) .. else ..")
         els = branch["inner"][2].get("inner", [])
-        DER = ("stats_average", "avg", "stats_variance", "stats_variance_mean")
+        DER = ("stats_average", "stats_variance", "stats_variance_mean") + tuple(v_ for v_ in dlocals if v_ != "cnt")
 
         def lkey(s_):
             if s_.get("kind") != "BinaryOperator" or s_.get("opcode") != "=":
